@@ -21,7 +21,7 @@ ANCHORS = ["State.__eq__", "Lanelet.__eq__", "Obstacle.__eq__", "Obstacle.__hash
            "TrafficSign.__eq__", "Intersection.__eq__"]
 REQUIRED = ["law.reflexive", "law.deepcopy", "law.symmetric", "law.twin", "law.perturbation", "law.hash-total",
             "law.hash-consistent", "defaults-instance", "law.kwargs-order", "law.cross-class-state", "law.optional-subsets", "law.derived-attribute-twin",
-            "coordinates-of-different-magnitude", "law.after-update_initial_state",
+            "coordinates-of-different-magnitude", "law.after-update_initial_state", "law.assembly-twin",
             "class.Polygon.large", "class.Lanelet.large"]
 ASSUMPTIONS = ["perturbations are clearly different valid values (never a reordering or a duplicate)",
                "real perturbations are >= 1e-6, i.e. far above the documented 1e-10 resolution"]
@@ -613,6 +613,26 @@ def run(ctx):
                 h8 = safe(hash, y8)
                 if h8[0] == "exc":
                     V("hash-raises-%s/after-update_initial_state" % type(h8[1]).__name__, repr(h8[1]))
+        # L9 scenarios with identical content that were ASSEMBLED differently (an element added through the scenario vs
+        # through its lanelet network) are equal and hash equally: equality is about attribute values, not about the
+        # route that produced them
+        if name == "Scenario" and not use_defaults:
+            a9, b9 = safe(lambda: build()[0]), safe(lambda: build()[0])
+            if a9[0] == "ok" and b9[0] == "ok":
+                e1, e2 = mkgen().lanelet(4097, full=False), mkgen().lanelet(4097, full=False)
+                r9 = safe(lambda: (a9[1].add_objects(e1), b9[1].lanelet_network.add_lanelet(e2)))
+                if r9[0] == "ok":
+                    ctx.feature("law.assembly-twin")
+                    ctx.evaluation()
+                    r = eq_ops(a9[1], b9[1])
+                    if r[0] == "exc":
+                        V("eq-raises-%s/assembly-twin" % type(r[1]).__name__, repr(r[1]))
+                    elif r[1] != (True, True, False, False):
+                        V("identical-content-assembled-differently-not-equal", "x==y -> %s" % (r[1],))
+                    else:
+                        ha, hb = safe(hash, a9[1]), safe(hash, b9[1])
+                        if ha[0] == "ok" and hb[0] == "ok" and ha[1] != hb[1]:
+                            V("equal-but-hash-differs", "assembly-twin")
         # L7 every optional argument on its own / left out on its own (one-sided combinations of optional arguments):
         # such objects are built through the public constructor too, so ==, hash and deepcopy must work on them
         if not use_defaults and k % 2 == 1:
